@@ -441,6 +441,107 @@ func polyStage() {
 	packStage(r, full)
 	hintStage(r, full)
 	sampleStage(r, full)
+	codecStage(r, full)
+}
+
+func positionsOf(hv []h.MLDSAPoly) [][]int {
+	pos := [][]int{}
+	for _, p := range hv {
+		pos = append(pos, positions(p))
+	}
+	return pos
+}
+
+func signedVec(v []h.MLDSAPoly) [][]int64 {
+	o := make([][]int64, len(v))
+	for i := range v {
+		o[i] = signedOf(v[i])
+	}
+	return o
+}
+
+// emitSigDecode records sigDecode on arbitrary bytes of the right length.
+func emitSigDecode(name string, sig []byte) {
+	par := h.MLDSAParams(name)
+	c, z, hv, err := h.MLDSASigDecode(par, sig)
+	if err != nil {
+		z = []h.MLDSAPoly{}
+	}
+	w.Emit(vt.Ev{"ev": "sigdecode", "set": name, "in": vt.Hex(sig), "ok": err == nil, "c": vt.Hex(c), "z": z, "h": positionsOf(hv)})
+}
+
+func emitPKDecode(name string, pkB []byte) {
+	par := h.MLDSAParams(name)
+	pk, err := par.DecodePublicKey(pkB)
+	if err != nil {
+		return
+	}
+	rho, t1, tr := h.MLDSAPublicKeyParts(pk)
+	w.Emit(vt.Ev{"ev": "pkdecode", "set": name, "in": vt.Hex(pkB), "rho": vt.Hex(rho[:]), "t1": t1, "tr": vt.Hex(tr[:]), "re": vt.Hex(pk.Encode())})
+}
+
+func emitSKDecode(name string, skB []byte) {
+	par := h.MLDSAParams(name)
+	sk, err := par.DecodeSecretKey(skB)
+	if err != nil {
+		return
+	}
+	rho, kK, tr, s1, s2, t0 := h.MLDSASecretKeyParts(sk)
+	w.Emit(vt.Ev{"ev": "skdecode", "set": name, "in": vt.Hex(skB), "rho": vt.Hex(rho[:]), "K": vt.Hex(kK[:]), "tr": vt.Hex(tr[:]),
+		"s1": s1, "s2": s2, "t0": t0, "re": vt.Hex(sk.Encode())})
+}
+
+// codecStage: the composite encodings of marshal.go (sigEncode/sigDecode, pk/sk decode and re-encode)
+func codecStage(r *rand.Rand, full bool) {
+	n := 4
+	if full {
+		n = 60
+	}
+	for _, name := range []string{"44", "65", "87"} {
+		par := h.MLDSAParams(name)
+		_, lambda, log2g1, _, k, l, _, omega, _, _ := h.MLDSAParamValues(par)
+		g1 := int64(1) << uint(log2g1)
+		for i := 0; i < n; i++ {
+			c := vt.Bytes(r, lambda/4)
+			z := make([]h.MLDSAPoly, l)
+			for a := range z {
+				for j := range z[a] {
+					v := r.Int63n(2*g1) - g1 + 1 // -gamma1+1 .. gamma1
+					switch r.Intn(40) {
+					case 0:
+						v = g1
+					case 1:
+						v = -g1 + 1
+					}
+					if v < 0 {
+						v += q
+					}
+					z[a][j] = uint32(v)
+				}
+			}
+			hv := randomHint(r, k, r.Intn(omega+1))
+			sig := h.MLDSASigEncode(par, c, z, hv)
+			w.Emit(vt.Ev{"ev": "sigencode", "set": name, "c": vt.Hex(c), "z": signedVec(z), "h": positionsOf(hv), "out": vt.Hex(sig)})
+			emitSigDecode(name, sig)
+			b := append([]byte{}, sig...)
+			b[r.Intn(len(b))] ^= 1 << uint(r.Intn(8))
+			emitSigDecode(name, b)
+			emitSigDecode(name, vt.Bytes(r, len(sig)))
+			// keys: arbitrary bytes of the right length decode (every bit pattern is a valid t1 / s / t0 encoding
+			// for the decoder) and must re-encode to themselves where the standard's ranges are respected
+			emitPKDecode(name, vt.Bytes(r, par.PublicKeyLength()))
+			var seed [32]byte
+			r.Read(seed[:])
+			pk, sk := h.MLDSAKeyGenInternal(par, seed)
+			emitPKDecode(name, pk.Encode())
+			emitSKDecode(name, sk.Encode())
+		}
+		ff := make([]byte, par.PublicKeyLength())
+		for i := range ff {
+			ff[i] = 0xff
+		}
+		emitPKDecode(name, ff)
+	}
 }
 
 func randSmall(r *rand.Rand, bound int64) h.MLDSAPoly {
